@@ -9,6 +9,7 @@ import (
 	"errors"
 	"fmt"
 	"log"
+	"math"
 	"sync"
 	"time"
 )
@@ -1005,6 +1006,10 @@ type DeviceTimeAnsPayload struct {
 // MarshalBinary encodes the object into bytes.
 func (p DeviceTimeAnsPayload) MarshalBinary() ([]byte, error) {
 	b := make([]byte, 5)
+
+	if p.TimeSinceGPSEpoch < 0 || p.TimeSinceGPSEpoch/time.Second > math.MaxUint32 {
+		return nil, errors.New("lorawan: TimeSinceGPSEpoch must be between 0 and 2^32-1 seconds")
+	}
 
 	seconds := uint32(p.TimeSinceGPSEpoch / time.Second)
 	binary.LittleEndian.PutUint32(b, seconds)
